@@ -36,7 +36,18 @@ func (n *InfluxQLNode) Build(q *pipeline.InfluxQLNode) (ast.Node, error) {
 		}
 		args = append(args, q.Args...)
 	}
-	n.Pipe(q.Method, args...).
+	method := q.Method
+	if method == "holtWinters" && len(args) > 0 {
+		// The last argument tells whether the fit data is included: it is not a parameter of
+		// the chain methods but the difference between holtWinters and holtWintersWithFit.
+		if fit, ok := args[len(args)-1].(bool); ok {
+			args = args[:len(args)-1]
+			if fit {
+				method = "holtWintersWithFit"
+			}
+		}
+	}
+	n.Pipe(method, args...).
 		Dot("as", q.As).
 		DotIf("usePointTimes", q.PointTimes)
 	return n.prev, n.err
